@@ -32,9 +32,9 @@ type node struct {
 }
 
 type quotaCase struct {
-	Chain      []node `json:"chain"`       // root first
-	LimiterOn  int    `json:"limiter_on"`  // index into Chain
-	NoLimiter  bool   `json:"no_limiter"`  // only system flows count; nothing may be refused
+	Chain      []node `json:"chain"`      // root first
+	LimiterOn  int    `json:"limiter_on"` // index into Chain
+	NoLimiter  bool   `json:"no_limiter"` // only system flows count; nothing may be refused
 	QuotaYAML  string `json:"quota_yaml"`
 	FlowYAML   string `json:"flow_yaml"`
 	Unit       string `json:"unit"`
@@ -348,13 +348,13 @@ func genArrivals(r *sim.Rand, qc quotaCase, n int) []arrival {
 }
 
 type replay struct {
-	Case     int        `json:"case"`
-	Seed     uint64     `json:"seed"`
-	Quota    quotaCase  `json:"quota"`
-	Arrivals []arrival  `json:"arrivals"`
-	Round    []arrival  `json:"round,omitempty"`
-	Note     string     `json:"note,omitempty"`
-	Verdicts []string   `json:"convention_verdicts,omitempty"`
+	Case     int       `json:"case"`
+	Seed     uint64    `json:"seed"`
+	Quota    quotaCase `json:"quota"`
+	Arrivals []arrival `json:"arrivals"`
+	Round    []arrival `json:"round,omitempty"`
+	Note     string    `json:"note,omitempty"`
+	Verdicts []string  `json:"convention_verdicts,omitempty"`
 }
 
 func main() {
@@ -692,7 +692,6 @@ func concurrentRound(idx int, args sim.Args, r *sim.Rand, qc quotaCase, env *sim
 	}
 	return true
 }
-
 
 // runStraddle: a request that was counted into a full window is parked between the limiter's
 // Inc and its Allowed; meanwhile the window rolls over and is filled by other requests; then the
